@@ -7,6 +7,8 @@
 
 #include <arpa/inet.h>
 
+#include <set>
+
 using namespace wl;
 
 namespace {
@@ -156,6 +158,16 @@ void exec_c34(const Plan& p, Ctx& ctx) {
             if (!allow_private && c != 0)
                 ctx.violate(std::string("C34.non_routable_endpoint_advertised.") + (e.host == reported.text ? reported.cls : "other"), "advertised_endpoints holds the automatically discovered " + e.host + ":" + std::to_string(e.port) + " (via " + e.source + ")" + ctx_text);
             if (mode == 0) ctx.violate("C34.auto_endpoint_with_mode_off", "auto-advertise is off but advertised_endpoints holds the automatically discovered " + e.host + ctx_text);
+        }
+        // independent of the node's own conflict flag: in warn mode the automatic candidates are published only when they agree, so two
+        // different automatic endpoints side by side are conflicting candidates that were not withheld
+        if (mode == 2) {
+            std::set<std::string> distinct;
+            for (auto& e : seen.advertised_endpoints) if (!e.manual) distinct.insert(e.host + ":" + std::to_string(e.port));
+            if (distinct.size() > 1) ctx.violate("C34.conflicting_candidates_published", fmt("warn mode, yet %zu different automatic endpoints are advertised side by side", distinct.size()) + ctx_text);
+            std::set<std::string> hint_hosts;
+            for (auto& h : man.discovery_hints) if (h.scheme == "transport") hint_hosts.insert(h.endpoint);
+            if (hint_hosts.size() > 1) ctx.violate("C34.conflicting_candidate_in_hint", fmt("warn mode, yet the issued manifest carries %zu different automatic transport hints", hint_hosts.size()) + ctx_text);
         }
         if (mode == 2 && seen.auto_advertise_conflict) {
             ctx.boundary("warn_mode_conflict");
